@@ -486,9 +486,19 @@ def call_method(interp, recv, name, args, kwargs):
     raise Unsupported('str.%s on symbolic string' % name)
 
 
+def _int_fns():
+    return (z3.Function('int.valid', z3.StringSort(), z3.BoolSort()),
+            z3.Function('int.value', z3.StringSort(), z3.IntSort()))
+
+
 def str_of_int(interp, n):
     t = n.t
-    return wrap(z3.If(t >= 0, z3.IntToStr(t), z3.Concat(z3.StringVal('-'), z3.IntToStr(-t))))
+    r = z3.If(t >= 0, z3.IntToStr(t), z3.Concat(z3.StringVal('-'), z3.IntToStr(-t)))
+    # trusted lemma (CPython): int(str(n)) == n for every int n -- instantiated at this n, so that a text
+    # that equals str(n) converts back to n without the solver having to invert int.to.str
+    valid, val = _int_fns()
+    interp.st.assume(z3.And(valid(r), val(r) == t))
+    return wrap(r)
 
 
 def int_of_str(interp, s):
@@ -497,12 +507,13 @@ def int_of_str(interp, s):
     predicate and value function."""
     st = interp.st
     t = _s(s)
-    valid = z3.Function('int.valid', z3.StringSort(), z3.BoolSort())
-    val = z3.Function('int.value', z3.StringSort(), z3.IntSort())
+    valid, val = _int_fns()
     digits = z3.Plus(z3.Range('0', '9'))
     plain = z3.InRe(t, digits)
     st.assume(z3.Implies(plain, z3.And(valid(t), val(t) == z3.StrToInt(t))))
     neg = z3.InRe(t, z3.Concat(z3.Re(z3.StringVal('-')), digits))
+    # '-' followed by decimal digits: valid, the negated value of the digits (so that int(str(n)) == n for n < 0)
+    st.assume(z3.Implies(neg, z3.And(valid(t), val(t) == -z3.StrToInt(z3.SubString(t, 1, z3.Length(t) - 1)))))
     if not st.fork(wrap(valid(t))):
         raise _pyraise(ValueError('invalid literal for int()'))
     return wrap(val(t))
